@@ -72,7 +72,8 @@ def run(res):
         "arbitrary nodes) and family B (searching node under forged responses: wrong action prefix, wrong message id, right id "
         "from another source, replays) scenarios; the checker audits the real node's table operations (hook log) per handled "
         "datagram and its contacts (API); every event is replayed through the Coq model. distinct = distinct scenarios.",
-        ["answers to bootstrap exchanges are matched on (source, id) by the socket layer (not handler events)"])
+        ["answers to bootstrap exchanges are matched on (source, id) by the socket layer (not handler events): replayed through "
+         "model/Socket.v"], socket_replay=True)
 
 
 def replay(path):
